@@ -177,33 +177,19 @@ def monotone_lemmas(ck, fc, qn):
              clause="beta_a < beta_b  =>  f(len, beta_a) <= f(len, beta_b)  (len >= 0)")
 
 
-def run(ck):
-    ck.assume("Taus.tau_exit_prob / Taus.tau_energy are replaced by their contracts (C05 / C04): arbitrary per-event values with E_tau >= 1 TeV (data obligation of C18: smallest reachable energy 1.78 TeV)",
-              "the internal generator's draw is a ghost per-event input u; uniform(0,1) is half-open so u in [0,1) there, the statement's interval (0,1] is used for explicit u",
-              "sin / sqrt / log / exp constrained by instantiated axioms (nssvc.prover.Z3Conv)")
-    ck.trust("numpy elementwise semantics (nssvc.npmodel)", "astropy constants c, R_earth read natively (values compared with the specification's own constants by the proofs)")
-    ck.add_file("nuspacesim/simulation/taus/taus.py")
-    ck.add_file("nuspacesim/simulation/eas_optical/eas.py")
+def stage(ck, full=False):
+    """function-level obligations of Taus.__call__ and EAS.altDec (C11 uses them without the lemmas)"""
     n = 5 if ck.tier == "quick" else 25
-
-    # Taus.__call__
     qn = "taus:Taus.__call__"
     sc = Scenario(qn, build_taus, events={"E": (E_MIN, 1e12), "pexit": (1e-9, 1.0), "beta": (0.0, 0.7330382858376184), "logE": (6.0, 12.0)},
                   scalars={"frac": (1e-6, 1.0)})
     fc = FunctionCheck(ck, qn, sc, spec_taus, ["tauBeta", "tauLorentz", "tauEnergy", "showerEnergy", "tauExitProb", "stored_names"],
                        overrides=taus_overrides(), spec_overrides={}, clauses=[("post.physical", c_gamma)])
     fc.explore().obligations()
-    fc.clause_obligations()
-    fc.definedness_obligations()
-    fc.crosscheck(n)
-
-    # the tau energy that feeds the kinematics: Taus.tau_energy under its own contract (shared with C04): energy at the
-    # event's own angle (clamped only below the table), arguments untouched (the same beta array goes on to altDec)
-    from contracts import C04
-
-    C04.tau_energy_obligations(ck)
-
-    # EAS.altDec
+    if full:
+        fc.clause_obligations()
+        fc.definedness_obligations()
+        fc.crosscheck(n)
     ev = {"beta": (0.0, 0.7330382858376184), "bt": (1e-6, 1.0), "g": (1.0, 1e10), "u": (1e-12, 1.0)}
     for explicit in (True, False):
         qn = "eas:EAS.altDec[%s]" % ("explicit-u" if explicit else "generator")
@@ -211,6 +197,8 @@ def run(ck):
         fc = FunctionCheck(ck, qn, sc, spec_altdec, ["altDec", "lenDec", "stored_names"], rng_inputs=[] if explicit else ["u"],
                            clauses=[("post.len_nonneg", c_len_nonneg), ("post.exponential", c_exponential), ("post.triangle", c_triangle), ("post.alt_nonneg", c_alt_nonneg)])
         fc.explore().obligations()
+        if not full:
+            continue
         if explicit:
             fc.clause_obligations()
             fc.definedness_obligations()
@@ -225,3 +213,18 @@ def run(ck):
         rp = [p for p in fc.code_paths if p.kind == "return"]
         if rp and explicit:
             ck.planted("%s/planted" % qn, fc.hyps, sp.Ge(harness.term(rp[0].result[0]), 1))
+
+
+def run(ck):
+    ck.assume("Taus.tau_exit_prob / Taus.tau_energy are replaced by their contracts (C05 / C04): arbitrary per-event values with E_tau >= 1 TeV (data obligation of C18: smallest reachable energy 1.78 TeV)",
+              "the internal generator's draw is a ghost per-event input u; uniform(0,1) is half-open so u in [0,1) there, the statement's interval (0,1] is used for explicit u",
+              "sin / sqrt / log / exp constrained by instantiated axioms (nssvc.prover.Z3Conv)")
+    ck.trust("numpy elementwise semantics (nssvc.npmodel)", "astropy constants c, R_earth read natively (values compared with the specification's own constants by the proofs)")
+    ck.add_file("nuspacesim/simulation/taus/taus.py")
+    ck.add_file("nuspacesim/simulation/eas_optical/eas.py")
+    stage(ck, full=True)
+    # the tau energy that feeds the kinematics: Taus.tau_energy under its own contract (shared with C04): energy at the
+    # event's own angle (clamped only below the table), arguments untouched (the same beta array goes on to altDec)
+    from contracts import C04
+
+    C04.tau_energy_obligations(ck)
